@@ -21,7 +21,7 @@ type Outcome struct {
 
 // Script renders the satisfiability query whose unsatisfiability proves the obligation.
 func (x *Exec) Script(o *Obligation, withModel bool) string {
-	asserts := append([]*smt.Term{}, o.Hyps...)
+	asserts := relevantHyps(o)
 	asserts = append(asserts, o.PC)
 	if o.Expect != "sat" {
 		asserts = append(asserts, x.B.Not(o.Goal))
